@@ -180,7 +180,10 @@ impl<B, I, const LOG2_ZEROS_PER_INVENTORY: usize, const LOG2_U64_PER_SUBINVENTOR
     ///
     /// This method is unsafe because it is not possible to guarantee that the
     /// new backend is identical to the old one as a bit vector.
-    pub unsafe fn map<C>(self, f: impl FnOnce(B) -> C) -> SelectZeroAdaptConst<C, I>
+    pub unsafe fn map<C>(
+        self,
+        f: impl FnOnce(B) -> C,
+    ) -> SelectZeroAdaptConst<C, I, LOG2_ZEROS_PER_INVENTORY, LOG2_U64_PER_SUBINVENTORY>
     where
         C: SelectZeroHinted,
     {
